@@ -132,7 +132,7 @@ async def _run_history(
     metric = case.get("metric", True)
     registry = case.get("registry") or {}
     model = RefController(version, metric=metric, registry=registry)
-    gateway, transport = env.make_gateway(version, metric=metric, ctx=case.get("ctx"))
+    gateway, transport = env.make_gateway(version, metric=metric, ctx=case.get("ctx"), persistence_file=case.get("persistence_file"))
     env.install_registry(gateway.nodes, registry)
     if "setup" in hooks:
         hooks["setup"](gateway, transport, model)
@@ -152,11 +152,18 @@ async def _run_history(
         if kind == "session":
             if listener is not None:
                 await listener.close()
-            if info.get("in_session"):
-                await gateway.__aexit__(None, None, None)
-            await gateway.__aenter__()
-            info["in_session"] = True
-            classes["session-restart"] += 1
+            try:
+                if info.get("in_session"):
+                    info["in_session"] = False
+                    await gateway.__aexit__(None, None, None)
+                await gateway.__aenter__()
+                info["in_session"] = True
+                classes["session-restart"] += 1
+            except TransportError:
+                raise
+            except Exception as err:  # noqa: BLE001
+                # (e.g. a persistence file that cannot be written: the context cannot be entered - not this driver's subject)
+                classes[f"session-failed:{type(err).__name__}"] += 1
             continue
         if kind == "read_error":
             # the transport fails to read (line noise, a dropped link): a library error, and nothing else changes
@@ -417,6 +424,10 @@ async def _run_history(
                     owed_missing["<time reply>"] += 1
                 if owed_missing:
                     return bad(f"reaction-refused:{mk}:{rec.outcome}", f"owed {sorted(owed_missing)!r} but the message was refused: {rec.value!r}", idx), info
+            if "writes" in aspects and pred.id_request is not None and rec.outcome in LIBERR_FAMILY and not any(IDRESP.match(w) for w in rec.writes):
+                in_use = [int(k) for k in model.nodes]
+                if (max(in_use) if in_use else 0) + 1 <= 254:
+                    return bad(f"reaction-refused:{mk}:{rec.outcome}", f"an id request is owed an id response (ids are free) but was refused: {rec.value!r}", idx), info
             if query_owed_but_missing():
                 return bad(f"version-query:missing:{mk}", f"no version query although the version is unknown (outcome {rec.outcome}, predicted {pred.outcomes})", idx), info
             info["diverged"] = True
@@ -555,6 +566,11 @@ async def _run_history(
             if want_flags != got_flags:
                 return bad(f"sleeping-flag:{mk}", f"nodes known to be sleeping: model {want_flags!r}, gateway {got_flags!r}", idx), info
         if rec.after != model.nodes:
+            if "idalloc" in aspects:
+                vanished = sorted(int(k) for k in model.nodes if k not in rec.after)
+                if vanished:
+                    # a registered id that disappears (without the application removing it) is free to be handed out again
+                    return bad(f"registered-id-vanished:{mk}", f"nodes {vanished} were in the registry before this message and are gone after it", idx), info
             if "registry" in aspects:
                 diff = _first_diff(model.nodes, rec.after)
                 changed_on_error = rec.outcome != "ok" and rec.after != rec.before
